@@ -55,6 +55,12 @@ func checkC15(c *Ctx) {
 	c.ruleOrder()
 	c.ruleShortWrite("C4.shortwrite")
 	c.ruleShortRead("C6.shortread", inScope)
+	// a variable file that ends early is an error, not an empty or zero-filled value (F7, shared with C11)
+	for _, s := range []string{"efivarfs/fswrapper.(*FSWrapper).ParseEfivars", "efi/attributes.ParseEfivars"} {
+		if fn := c.FnOpt(s); fn != nil {
+			c.judgeReadShape(fn)
+		}
+	}
 	c.R.Floor("C1.dropped", 15)
 	c.R.Floor("C2.surface", 15)
 	c.R.Floor("C.order", 3)
@@ -69,6 +75,54 @@ func (c *Ctx) ruleOrder() {
 			callee := ir.Callee(call)
 			return callee != nil && c.reachesSigner(callee)
 		}, c.receiverMutation(fn), "mutation of the image object")
+	}
+	// (*PECOFFBinary).Sign: once the signature is on the image object, Sign does not report failure
+	if fn := c.Fn("C.order", "authenticode.(*PECOFFBinary).Sign"); fn != nil {
+		isMut := c.receiverMutation(fn)
+		bad := ""
+		n := 0
+		instrsOf(fn, func(i ssa.Instruction) {
+			if !isMut(i) {
+				return
+			}
+			n++
+			starts := []struct {
+				b    *ssa.BasicBlock
+				pred int
+			}{}
+			if call, isC := i.(ssa.CallInstruction); isC {
+				if e, kept := errValue(call); kept && e != nil {
+					// from the edge on which the mutator itself reported success
+					for _, ce := range ir.CondEdges(fn) {
+						if v, isNil := errIsNil(ce.RawCond, ce.RawTruth); v != nil && isNil && sameErrValue(v, e) {
+							starts = append(starts, struct {
+								b    *ssa.BasicBlock
+								pred int
+							}{fn.Blocks[ce.Edge.To], ce.Edge.From})
+						}
+					}
+				}
+			}
+			if len(starts) == 0 {
+				for _, s := range i.Block().Succs {
+					starts = append(starts, struct {
+						b    *ssa.BasicBlock
+						pred int
+					}{s, i.Block().Index})
+				}
+			}
+			for _, st := range starts {
+				for r, cl := range retClassesFrom(fn, st.b, st.pred) {
+					if cl == "fail" {
+						bad = c.IPos(r)
+					}
+				}
+			}
+		})
+		if n > 0 {
+			c.R.Check(bad == "", "C.order", name(fn), "no-failure-after-effect", c.Pos(fn.Pos()), "after the signature was put on the image object Sign does not return an error",
+				"the failing return at "+bad+" is reachable after the image object was changed: the caller is told that signing failed while the object already carries the new signature")
+		}
 	}
 	// (*PECOFFBinary).Hash: whatever it keeps on the image object is kept only after the image was read completely
 	if fn := c.Fn("C.order", "authenticode.(*PECOFFBinary).Hash"); fn != nil {
